@@ -333,6 +333,8 @@ def run(prog, rep, tier):
         body = one_body(prog, rep, 'R10.1', 'mla', exact=exact) if exact else one_body(prog, rep, 'R10.1', 'mla', adt=pkgadt, name=name)
         if body is None:
             continue
+        from ..inline import inlined_body
+        body = inlined_body(prog, body)      # the `[record][record length]` reader may be a helper shared by the footer and the sizes index
         seeks = [b for b in body.calls() if b.term.cmethod == 'seek' and b.term.ctrait == 'std::io::Seek']
         reads = [b for b in body.calls() if b.term.ctrait in ('byteorder::ReadBytesExt', 'bincode::Options') and b.term.cmethod in ('read_u32', 'deserialize_from')]
         ends = [b for b in seeks if (expr_of(body, b.term.args[1]) or ('?',))[0] == 'agg' and expr_of(body, b.term.args[1])[3].j.get('variant') == 'End']
